@@ -467,6 +467,9 @@ def handle_violations(prop, by_sig, replay_cmd, make_replay_for, classify=None, 
     internal = []
     lines = []
     os.makedirs(os.path.join(REPLAYS, prop), exist_ok=True)
+    fast = bool(os.environ.get("VERIF_FAST_VIOLATIONS"))      # tools/run_seeded.py: only "is it caught", no minimisation
+    if fast:
+        max_new = 1
     for sig in sorted(by_sig):
         k = match_known(prop, sig, known)
         if k:
@@ -496,10 +499,13 @@ def handle_violations(prop, by_sig, replay_cmd, make_replay_for, classify=None, 
             internal.append("INTERNAL: nondeterministic replay for signature %s (replay %s): %s" % (sig, path, res))
             continue
         out = os.path.join(REPLAYS, prop, safe_name(sig) + ".replay")
-        n = minimise(replay_cmd, path, sig, out, classify, env=env)
-        ok2, _ = gate(replay_cmd, out, sig, classify, env=env)
-        if not ok2:
+        if fast:
             shutil.copy(path, out)
+        else:
+            n = minimise(replay_cmd, path, sig, out, classify, env=env)
+            ok2, _ = gate(replay_cmd, out, sig, classify, env=env)
+            if not ok2:
+                shutil.copy(path, out)
         lines.append("VIOLATION property=%s replay=%s" % (prop, out))
         lines.append("  signature: %s" % sig)
         lines.append("  detail: %s" % (cand.get("detail", "")[:1500]))
